@@ -278,6 +278,47 @@ def check(ctx):
                             if later:
                                 why = LOOP_REBOUND_OK.get((rel, qn, tg.id))
                                 ctx.ob("PARAM.loop-rebound-returned", st, f"{qn}: parameter `{tg.id}` is rebound to an unrelated value inside a loop and returned after it", why is not None, why or f"`{tg.id}` no longer holds what the caller passed (nor a value derived from it) when it is returned", nontrivial=why is None)
+    # ---------------- NAME.resolves: every name a function reads is a local, an enclosing local, a module-level
+    # name, an import or a builtin (symtable scoping).  Over every module the property's rules consulted.
+    import builtins as _b
+    import symtable as _st
+
+    BI = set(dir(_b)) | {"__file__", "__doc__", "__name__", "__package__", "__spec__", "__loader__", "__builtins__", "__path__", "__class__", "__debug__", "__annotations__"}
+    n_mods = 0
+    for rel in sorted(set(model.consulted) | set(anchor_files(ctx.prop))):
+        if not rel.endswith(".py") or not model.exists(rel) or "/tests/" in rel:
+            continue
+        src = model.read(rel)
+        if "import *" in src:
+            continue
+        try:
+            top = _st.symtable(src, rel, "exec")
+        except SyntaxError:
+            continue
+        n_mods += 1
+        modnames = {sy.get_name() for sy in top.get_symbols() if sy.is_assigned() or sy.is_imported() or sy.is_namespace()}
+
+        def _globals_assigned(tbl):
+            for ch in tbl.get_children():
+                for sy in ch.get_symbols():
+                    if sy.is_declared_global() and sy.is_assigned():
+                        modnames.add(sy.get_name())
+                _globals_assigned(ch)
+
+        _globals_assigned(top)
+
+        def _scan(tbl, path):
+            for ch in tbl.get_children():
+                p_ = path + [ch.get_name()]
+                for sy in ch.get_symbols():
+                    if sy.is_referenced() and sy.is_global() and not sy.is_assigned():
+                        nm = sy.get_name()
+                        if nm not in modnames and nm not in BI:
+                            ctx.ob("NAME.resolves", f"{rel}::{'.'.join(p_)}", f"name `{nm}` read in {'.'.join(p_)} is bound somewhere", False, f"`{nm}` is neither a local, an enclosing local, a module-level name, an import nor a builtin: NameError when this path runs")
+                _scan(ch, p_)
+
+        _scan(top, [])
+    ctx.count("modules_name_checked", n_mods)
     # ---------------- ARGPOS.named-call
     n_calls = 0
     for rel in anchor_files(ctx.prop):
